@@ -662,15 +662,15 @@ Definition url_parse (s : str) : outcome url_result :=
       if negb (str_eqb scheme s!"matrix") then Ok UrlOther
       else
         let parsed :=
-          match rest with
-          | 47 :: 47 :: r =>                                            (* authority *)
-              match authority r with
+          if head_is 47 rest then
+            let r1 := tl rest in
+            if head_is 47 r1 then                                       (* "//": authority *)
+              match authority (tl r1) with
               | Some r' => Some (path_start r')
               | None => None
               end
-          | 47 :: r => Some (path_loop r [47] [])                       (* "/"-rooted path *)
-          | _ => Some (opaque_path rest)                                (* opaque path *)
-          end in
+            else Some (path_loop r1 [47] [])                            (* "/"-rooted path *)
+          else Some (opaque_path rest) in                               (* opaque path *)
         match parsed with
         | None => Ok UrlOther
         | Some (path, remaining) => obind (query_of remaining) (fun q => Ok (UrlMatrix path q))
